@@ -36,7 +36,10 @@ fn bin(name: &str) -> PathBuf {
 #[derive(Clone, Debug, Serialize, Deserialize)]
 pub enum Dir {
     Shipped(String),
-    Generated { b: Box<Bld>, with_extra_files: bool },
+    /// extra: 0 = project file only; 1 = KyGananciasSolares.txt + NewBDL_O.tbl covering every element (wall and
+    /// window records); 2 = a KyGananciasSolares.txt with window records only and no .tbl (so that the result
+    /// files change windows but no wall)
+    Generated { b: Box<Bld>, extra: u8 },
     Empty,
     Unrelated,
 }
@@ -57,7 +60,7 @@ fn shipped_dirs() -> Vec<String> {
 }
 
 /// KyG and tbl files covering the generated elements (what HULC leaves next to the project)
-fn extra_files(b: &Bld) -> (String, String) {
+fn extra_files(b: &Bld, windows_only: bool) -> (String, String) {
     let mut kyg = vec!["###;Datos para Factor de Pérdidas".to_string()];
     let mut elems: Vec<(String, &'static str)> = vec![];
     for (_, s) in b.all_spaces() {
@@ -69,7 +72,9 @@ fn extra_files(b: &Bld) -> (String, String) {
                 _ => "0",
             };
             elems.push((w.name.clone(), code));
-            kyg.push(format!("Muro;{};10.00;0.75;1.00;Fachada;S ;cons", w.name));
+            if !windows_only {
+                kyg.push(format!("Muro;{};10.00;0.75;1.00;Fachada;S ;cons", w.name));
+            }
             for win in &w.windows {
                 kyg.push(format!("Ventana;{};1.00;2.50;S ;10.00;0.70;-1.00;1.00;27.00;hueco", win.name));
             }
@@ -77,10 +82,14 @@ fn extra_files(b: &Bld) -> (String, String) {
     }
     kyg.push("Coeficiente K = ;0,750".into());
     kyg.push("###;Datos para Factor de Insolación".into());
+    let mut k = 0u32;
     for (_, s) in b.all_spaces() {
         for w in &s.walls {
             for win in &w.windows {
-                kyg.push(format!("\"{}\"; 180.000000; 1.000000; 80000.000000; 70000.000000; 60000.000000; 60000.000000; 1000.000000", win.name));
+                // obstruction factors 0.75, 0.70, 0.65 ... differ from window to window
+                k += 1;
+                let h3 = 60000.0 - 4000.0 * ((k % 8) as f32);
+                kyg.push(format!("\"{}\"; 180.000000; 1.000000; 80000.000000; 70000.000000; 60000.000000; {:.6}; 1000.000000", win.name, h3));
             }
         }
     }
@@ -100,18 +109,20 @@ fn extra_files(b: &Bld) -> (String, String) {
 fn materialise(d: &Dir, tag: u64) -> Option<PathBuf> {
     match d {
         Dir::Shipped(p) => Some(PathBuf::from(p)),
-        Dir::Generated { b, with_extra_files } => {
+        Dir::Generated { b, extra } => {
             let dir = Path::new(TMP).join(format!("g{:016x}", tag));
             let _ = std::fs::remove_dir_all(&dir);
             std::fs::create_dir_all(&dir).ok()?;
             let sys = gb::shipped_systems_sections();
             std::fs::write(dir.join("proyecto.ctehexml"), gb::print_ctehexml(b, &sys)).ok()?;
-            if *with_extra_files {
-                let (k, t) = extra_files(b);
+            if *extra > 0 {
+                let (k, t) = extra_files(b, *extra == 2);
                 // the tools read these two files as Latin-1
                 let lat = |s: &str| s.chars().map(|c| if (c as u32) < 256 { c as u8 } else { b'?' }).collect::<Vec<u8>>();
                 std::fs::write(dir.join("KyGananciasSolares.txt"), lat(&k)).ok()?;
-                std::fs::write(dir.join("NewBDL_O.tbl"), lat(&t)).ok()?;
+                if *extra == 1 {
+                    std::fs::write(dir.join("NewBDL_O.tbl"), lat(&t)).ok()?;
+                }
             }
             Some(dir)
         }
@@ -188,7 +199,7 @@ fn check_run(h: &CaseH, c: &RunCase) -> Verdict {
         if c.use_extra { "--use-extra " } else { "" },
         match &c.dir {
             Dir::Shipped(p) => p.trim_start_matches("/repo/hulc_tests/tests/").to_string(),
-            Dir::Generated { with_extra_files, .. } => format!("<generated project{}>", if *with_extra_files { " with KyG/tbl" } else { "" }),
+            Dir::Generated { extra, .. } => format!("<generated project{}>", ["", " with KyG/tbl", " with a windows-only KyG"][(*extra as usize).min(2)]),
             Dir::Empty => "<empty directory>".into(),
             Dir::Unrelated => "<directory without project>".into(),
         },
@@ -217,6 +228,21 @@ fn check_run(h: &CaseH, c: &RunCase) -> Verdict {
                 };
                 let (a, b) = (m2.as_json().unwrap_or_default(), model.as_json().unwrap_or_default());
                 vensure!(a == b, "C01:model-differs-from-library", "{}: the model on stdout differs from collect_hulc_data() for the same directory (JSON lengths {} / {})", what, a.len(), b.len());
+                // field by field, independent of the serialiser (which both sides above went through)
+                if let Err(d) = crate::props::model_props::same_model(&m2, model) {
+                    vfail!("C01:loaded-model-differs-from-library", "{}: the document on stdout loads as a model that differs from collect_hulc_data() for the same directory: {}", what, d);
+                }
+                if c.use_extra {
+                    match (model.overrides.walls.is_empty(), model.overrides.windows.is_empty()) {
+                        (true, false) => h.class("overrides/windows-only"),
+                        (false, true) => h.class("overrides/walls-only"),
+                        (false, false) => h.class("overrides/both"),
+                        _ => h.class("overrides/none"),
+                    }
+                }
+                if model.meta.name.is_empty() {
+                    h.class("unnamed-project");
+                }
                 if !model.walls.is_empty() && !model.windows.is_empty() {
                     h.nontrivial(fp(c));
                 }
@@ -275,6 +301,11 @@ fn check_thor(h: &CaseH, c: &ThorCase) -> Verdict {
             let what = format!("thor {} -o OUT (run #{} into the same OUT)", f.trim_start_matches("/repo/hulc_tests/tests/"), i + 1);
             vensure!(out.status.success(), "C01:thor:exit-status", "{}: exits with {:?}", what, out.status.code());
             let got = std::fs::read_to_string(&outp).unwrap_or_default();
+            if let (Ok(Ok(lm)), Ok(fm)) = (catch(|| hulc::ctehexml::parse_with_catalog_from_path(f).and_then(|d| Model::try_from(&d))), Model::from_json(&got)) {
+                if let Err(d) = crate::props::model_props::same_model(&fm, &lm) {
+                    vfail!("C01:thor:loaded-model-differs-from-library", "{}: OUT loads as a model that differs from the library conversion: {}", what, d);
+                }
+            }
             vensure!(got == expect, "C01:thor:file-is-not-the-model-json", "{}: OUT ({} bytes) is not the JSON of the converted model ({} bytes){}", what, got.len(), expect.len(), if got.starts_with(&expect) { ": the model JSON is followed by left-overs of the previous content" } else { "" });
             // same model as the export tool's default mode, apart from the `extra` diagnostics it appends
             if f.starts_with("/repo/") {
@@ -299,7 +330,7 @@ fn check_thor(h: &CaseH, c: &ThorCase) -> Verdict {
 
 pub fn run(args: &Args) -> ! {
     let ctx = Ctx::new("C01", "exploration", args);
-    ctx.rule("process level: the binaries hulc2model and thor built from /repo's working tree; directories: the 12 shipped projects, generated buildings written as .ctehexml (systems sections transplanted from shipped projects; with and without KyGananciasSolares.txt / NewBDL_O.tbl covering the generated elements), an empty directory and a directory with unrelated files; x {default, --use-extra} x RUST_LOG in {unset, info, warn}. Oracle: exit status 0 and stdout = exactly one JSON value followed only by whitespace (strict streaming reader), which loads as a model whose JSON equals that of hulc2model::collect_hulc_data for the same directory (reference computed in the harness process; directories the library cannot convert are counted, not asserted); no project: exit != 0 and no JSON on stdout; thor FILE -o OUT: exit 0 and OUT equals the model JSON, also when OUT already holds a longer earlier result, and equals the export tool's model without `extra`. Non-trivial: project with walls and windows; output file reused.");
+    ctx.rule("process level: the binaries hulc2model and thor built from /repo's working tree; directories: the 12 shipped projects, generated buildings written as .ctehexml (systems sections transplanted from shipped projects; named and unnamed; without result files, with KyGananciasSolares.txt + NewBDL_O.tbl covering the generated elements, or with a KyGananciasSolares.txt that has window records only), an empty directory and a directory with unrelated files; x {default, --use-extra} x RUST_LOG in {unset, info, warn}. Oracle: exit status 0 and stdout = exactly one JSON value followed only by whitespace (strict streaming reader), which loads as a model equal field by field (Debug text, independent of serde) to hulc2model::collect_hulc_data for the same directory and whose JSON equals that model's JSON (reference computed in the harness process; directories the library cannot convert are counted, not asserted); no project: exit != 0 and no JSON on stdout; thor FILE -o OUT: exit 0 and OUT equals the model JSON, also when OUT already holds a longer earlier result, and equals the export tool's model without `extra`. Non-trivial: project with walls and windows; output file reused.");
     ctx.assume("dev-profile binaries (same sources; the release profile only changes panic=abort/LTO)");
     if let Err(e) = build_bins() {
         ctx.infra_error(format!("cannot build the repository's binaries: {}", e));
@@ -324,7 +355,7 @@ pub fn run(args: &Args) -> ! {
     ctx.run_prop(
         "generated",
         ctx.tier().pick(96, 1_600),
-        || (gb::bld(), any::<bool>(), any::<bool>(), prop_oneof![Just(None), Just(Some("info".to_string())), Just(Some("warn".to_string()))]).prop_map(|(b, with_extra_files, use_extra, rust_log)| RunCase { dir: Dir::Generated { b: Box::new(b), with_extra_files }, use_extra, rust_log }),
+        || (gb::bld(), 0u8..3, prop_oneof![1 => Just(false), 2 => Just(true)], prop_oneof![Just(None), Just(Some("info".to_string())), Just(Some("warn".to_string()))]).prop_map(|(b, extra, use_extra, rust_log)| RunCase { dir: Dir::Generated { b: Box::new(b), extra }, use_extra, rust_log }),
         check_run,
     );
     // thor: big project then small one into the same file, and every shipped project alone
@@ -336,7 +367,7 @@ pub fn run(args: &Args) -> ! {
     thor_cases.push(ThorCase { files: vec![by_size[0].clone(), by_size[by_size.len() - 1].clone()], generated: None });
     ctx.run_enum("thor", &thor_cases, true, check_thor);
     ctx.run_prop("thor_generated", ctx.tier().pick(16, 300), || (gb::bld(), 0usize..12).prop_map(move |(b, i)| ThorCase { files: vec![], generated: Some(Box::new(b)) }.with_first(i)), check_thor);
-    for c in ["shipped_and_negative/convertible", "shipped_and_negative/no-project", "generated/convertible", "thor/output-file-reused"] {
+    for c in ["shipped_and_negative/convertible", "shipped_and_negative/no-project", "generated/convertible", "generated/overrides/windows-only", "generated/overrides/both", "generated/unnamed-project", "thor/output-file-reused"] {
         ctx.require_class(c);
     }
     ctx.finish()
